@@ -133,9 +133,9 @@ func init() {
 				}
 			}
 			// veneer rules
-			// (a merge_into set is kept whole: dropping one of its rules but not the `omit` of the
+			// (a rule set with merge_into / omit is kept whole: dropping one of its rules but not the `omit` of the
 			// root option would make members unreachable by construction)
-			if f[2] != "-" && f[2] != "" && !strings.Contains(f[2], "merge_into") {
+			if f[2] != "-" && f[2] != "" && !strings.Contains(f[2], "merge_into") && !strings.Contains(f[2], "omit:") {
 				lines := strings.Split(f[2], "\\n")
 				for i, l := range lines {
 					if !strings.HasPrefix(l, "  - ") {
